@@ -349,6 +349,9 @@ class BGP(protocol.Protocol):
         """
         try:
             reactor.callFromThread(self.write_tcp_thread, msg)
+            if msg:
+                # the octets are one UPDATE message built elsewhere: it is counted like the ones send_update builds
+                self.msg_sent_stat['Updates'] += 1
             return True
         except Exception as e:
             LOG.error(e)
